@@ -421,3 +421,53 @@ func VerifC01_ManagementFailure() {
 	}
 	rt.Reach("mgmtfail-end")
 }
+
+// ---- a shutdown and a further management pass both queued on the management
+// lock (a pass is in progress): the pass behind the shutdown starts nothing ----
+
+func VerifC01_ShutdownQueuedBeforeManagementPass() {
+	resetModuleSystem()
+	rt.NoTimers()
+	rt.SchedYieldOnly(true)
+	shape := []int{2, 5}[rt.Choice("shape", 2)] // 1 -> 0, chain of three
+	deps := dagShapes[shape]
+	lcFaults = 0
+	mods := buildDAG(shape)
+	if err := initDependencies(); err != nil {
+		rt.Assert(false, "queued/init-dependencies")
+		return
+	}
+	rt.Assert(prepareModules() == nil, "queued/prepare")
+	EnableModuleManagement(nil)
+	for _, m := range mods {
+		m.Enable()
+	}
+	rt.Assert(ManageModules() == nil, "queued/first-pass-ok")
+	// a pass is in progress (the lock is held); the shutdown queues up on the
+	// lock, a further management pass behind it. (The shutdown is the core of
+	// Shutdown(): lock, flag, stopModules.)
+	mgmtLock.Lock()
+	sdone, mdone := make(chan struct{}), make(chan struct{})
+	go func() {
+		mgmtLock.Lock()
+		shutdownFlag.Set()
+		_ = stopModules()
+		mgmtLock.Unlock()
+		close(sdone)
+	}()
+	rt.Yield()
+	go func() {
+		_ = ManageModules()
+		close(mdone)
+	}()
+	rt.Yield()
+	mgmtLock.Unlock()
+	<-sdone
+	<-mdone
+	for i, m := range mods {
+		rt.Assert(m.Status() != StatusOnline, "queued/no-module-online-after-shutdown-and-the-pass-behind-it")
+		rt.Assert(countEv(i, 2, false, false) == countEv(i, 1, true, true), "queued/stop-once-per-successful-start")
+	}
+	checkOrder(deps, "queuedorder")
+	rt.Reach("queued-end")
+}
